@@ -198,15 +198,33 @@ func flatData(spec *common.Spec, pre, post common.BeaconState) (string, error) {
 	if err != nil {
 		return "", err
 	}
-	for i := uint64(0); i < uint64(spec.EPOCHS_PER_HISTORICAL_VECTOR); i++ {
-		m, err := mixes.GetRandomMix(common.Epoch(i))
-		if err != nil {
-			return "", err
+	ephv := uint64(spec.EPOCHS_PER_HISTORICAL_VECTOR)
+	if ephv <= 128 {
+		for i := uint64(0); i < ephv; i++ {
+			m, err := mixes.GetRandomMix(common.Epoch(i))
+			if err != nil {
+				return "", err
+			}
+			if i > 0 {
+				sb.WriteByte(',')
+			}
+			sb.WriteString(hex.EncodeToString(m[:]))
 		}
-		if i > 0 {
-			sb.WriteByte(',')
+	} else {
+		// long vectors (mainnet: 65536): only the slots around the current epoch, as index:mix pairs — every seed of
+		// the previous/current/next(+1) epoch reads a slot between epoch-8 and epoch+2 for any MIN_SEED_LOOKAHEAD <= 4
+		cur := uint64(slot) / uint64(spec.SLOTS_PER_EPOCH)
+		for d := uint64(0); d <= 10; d++ {
+			i := (cur + ephv + 2 - d) % ephv
+			m, err := mixes.GetRandomMix(common.Epoch(i))
+			if err != nil {
+				return "", err
+			}
+			if d > 0 {
+				sb.WriteByte(',')
+			}
+			fmt.Fprintf(&sb, "%d:%s", i, hex.EncodeToString(m[:]))
 		}
-		sb.WriteString(hex.EncodeToString(m[:]))
 	}
 	sb.WriteByte(' ')
 	vals, err := post.Validators()
@@ -383,6 +401,14 @@ func genChain(o hreg.Opts, w *bufio.Writer) error {
 		{chainKey{"rand:" + strconv.FormatInt(700+o.Seed, 10), "mixed", "kickstart", "eventful+shock", 32, 38}, 48},
 		{chainKey{"fast@2,3,4,5", "poor", "kickstart", "leak-recover", 24, 39}, 80},
 		{chainKey{"fast@1,2,3,4", "mixed", "kickstart", "nobody", 16, 40}, 48},
+		// NON-power-of-two vector lengths (EPOCHS_PER_HISTORICAL_VECTOR 12/24/72/96, SYNC_COMMITTEE_SIZE 12/20/24),
+		// TARGET_COMMITTEE_SIZE 3/5/6 vs MAX_COMMITTEES_PER_SLOT 2/4/7, SLOTS_PER_EPOCH 8 or 6; mainnet constants
+		{chainKey{"apart:" + strconv.FormatInt(10+o.Seed, 10), "mixed", "kickstart", "deposits", 32, 41}, 48},
+		{chainKey{"apart:" + strconv.FormatInt(20+o.Seed, 10), "poor", "kickstart", "earlyexit+shock", 24, 42}, 48},
+		{chainKey{"apart:" + strconv.FormatInt(30+o.Seed, 10), "mixed", "eth1", "showcase", 40, 43}, 42},
+		{chainKey{"rand2:" + strconv.FormatInt(40+o.Seed, 10), "mixed", "kickstart", "earlyexit", 32, 44}, 48},
+		{chainKey{"rand2:" + strconv.FormatInt(50+o.Seed, 10), "rich", "kickstart", "deposits+shock", 24, 45}, 42},
+		{chainKey{"mainnetconst@1,2,3,4", "mixed", "kickstart", "showcase", 32, 46}, 40},
 	}
 	if o.Thorough() {
 		pols := []string{"default", "deposits", "eventful", "exits", "sparse", "quiet"}
@@ -403,7 +429,11 @@ func genChain(o hreg.Opts, w *bufio.Writer) error {
 			continue
 		}
 		st.Add("chain", "built")
-		st.Add("config", strings.SplitN(p.key.cfg, "@", 2)[0][:4])
+		st.Add("config", strings.FieldsFunc(p.key.cfg, func(r rune) bool { return r == '@' || r == ':' })[0])
+		st.Add("SLOTS_PER_EPOCH", u(uint64(l.c.Spec.SLOTS_PER_EPOCH)))
+		st.Add("EPOCHS_PER_HISTORICAL_VECTOR", u(uint64(l.c.Spec.EPOCHS_PER_HISTORICAL_VECTOR)))
+		st.Add("SYNC_COMMITTEE_SIZE", u(uint64(l.c.Spec.SYNC_COMMITTEE_SIZE)))
+		st.Add("TARGET_COMMITTEE_SIZE/MAX_COMMITTEES_PER_SLOT", u(uint64(l.c.Spec.TARGET_COMMITTEE_SIZE))+"/"+u(uint64(l.c.Spec.MAX_COMMITTEES_PER_SLOT)))
 		d, err := flatData(l.c.Spec, nil, l.c.State)
 		if err != nil {
 			return err
